@@ -329,11 +329,29 @@ def exhaustive_binary_items(index, of):
         k += 1
 
 
+def exhaustive_permuted_items(index, of):
+    """Pairs of two-parameter overloads whose parameter names come in opposite orders, (x: T1, y: T2) and
+    (y: T3, x: T4), with equal and with different return annotations; positional, keyword and mixed calls."""
+    types = ["int", "str", "bytes"]
+    args = ["int", "str", "bytes", "Any"]
+    calls = [(2, [], [a, b]) for a in args for b in args] + [(0, ["x", "y"], [a, b]) for a in args[:3] for b in args[:3]] \
+        + [(1, ["y"], [a, b]) for a in args[:3] for b in args[:3]]
+    k = 0
+    for t1, t2, t3, t4 in itertools.product(types, repeat=4):
+        for rets in (["R0", "R0"], ["R0", "R1"]):
+            if k % of == index:
+                o1 = [("x", "pk", t1, False), ("y", "pk", t2, False)]
+                o2 = [("y", "pk", t3, False), ("x", "pk", t4, False)]
+                yield [o1, o2], calls, rets
+            k += 1
+
+
 def shards(tier, seed):
     n = 16
     out = [{"mode": "exhaustive", "index": i, "of": n} for i in range(n)]
     out += [{"mode": "exhaustive-binary", "index": i, "of": 8} for i in range(8)]
     out += [{"mode": "exhaustive-rets", "index": i, "of": 4} for i in range(4)]
+    out += [{"mode": "exhaustive-permuted", "index": i, "of": 4} for i in range(4)]
     out += [{"mode": "random", "index": i, "modules": 6 if tier == "quick" else 300} for i in range(n)]
     return out
 
@@ -341,9 +359,10 @@ def shards(tier, seed):
 def run_shard(spec):
     col = runner.Collector(spec)
     checker = sut.new_checker()
-    if spec["mode"] in ("exhaustive", "exhaustive-binary", "exhaustive-rets"):
+    if spec["mode"] in ("exhaustive", "exhaustive-binary", "exhaustive-rets", "exhaustive-permuted"):
         batch = []
-        gen = {"exhaustive": exhaustive_items, "exhaustive-binary": exhaustive_binary_items, "exhaustive-rets": exhaustive_ret_items}[spec["mode"]]
+        gen = {"exhaustive": exhaustive_items, "exhaustive-binary": exhaustive_binary_items, "exhaustive-rets": exhaustive_ret_items,
+               "exhaustive-permuted": exhaustive_permuted_items}[spec["mode"]]
         for item in gen(spec["index"], spec["of"]):
             batch.append(item)
             if len(batch) == 12:
@@ -358,6 +377,7 @@ def run_shard(spec):
         col.extra["exhaustive"] = not col.budget_hit
         col.extra["exhaustive_bounds"] = ["all pairs of unary overloads over the 12-type vocabulary and all triples over 8 types, x 19 argument types",
                                           "all pairs of two-parameter overloads (second parameter pk/ko, with/without default) x 3 call shapes x {int, str, Any, int | str}",
+                                          "all pairs (x: T1, y: T2) / (y: T3, x: T4) over {int, str, bytes} with equal and different returns x positional / keyword / mixed calls incl. Any",
                                           "all pairs of unary overloads over 8 types x 7 overlapping return-annotation pairs (NoReturn, containing unions, equal) x 19 argument types"]
         return col.result()
     seed = runner.mix_seed(spec["seed"], ID, spec["name"])
